@@ -106,7 +106,7 @@ def outRes (ty : RT) (n p : Nat) (la : Bool) (at_ : Atom) (r : Res) : Res :=
   | .compound => tokF n p la true r
   | .nonAtomic => tokF n p la true r
 
-theorem callRule_rule {n : Nat} {rl : Rule} (hn : n < 1000) (hg : env.g[n]? = some rl)
+theorem callRule_ruleEv {n : Nat} {rl : Rule} (hn : n < 1000) (hg : env.g[n]? = some rl)
     (hws : env.ws ≠ some n) (hcm : env.comment ≠ some n) (f : Nat) (at_ : Atom) (la : Bool) (p : Nat) :
     callRule env (f + 1) n at_ la p =
       outRes rl.ty n p la at_ (matchE env f rl.body (innerAt rl.ty at_) la p) := by
@@ -136,7 +136,7 @@ theorem Ev.ref {n : Nat} {rl : Rule} (hn : n < 1000) (hg : env.g[n]? = some rl)
     Ev env (d + 2) (.ref n) at_ la p (outRes rl.ty n p la at_ r) := by
   intro f hf
   obtain ⟨f, rfl⟩ : ∃ f', f = f' + 1 + 1 := ⟨f - 2, by omega⟩
-  rw [matchE.eq_11, callRule_rule hn hg hws hcm, hb f (by omega)]
+  rw [matchE.eq_11, callRule_ruleEv hn hg hws hcm, hb f (by omega)]
 
 /-! ### from the window interpreter -/
 
